@@ -79,6 +79,9 @@ def run_case(params: dict) -> dict:
         script.append({'kind': kind, 'at': rng.choice([0.0, 0.02, 0.1, 0.3, 1.0, 2.5, 7.0]),
                        'peer': rng.randrange(n_peers), 'value': rng.randint(0, 4),
                        'status': rng.choice(['online', 'away', 'offline'])})
+    hrng = random.Random(f"{params['seed']}:C05:how:{params.get('n', params.get('case'))}")
+    for ev in script:
+        ev['how'] = hrng.choice(['assign', 'assign', 'section', 'parent'])
     script.sort(key=lambda e: e['at'])
     tm = TransferMonitor()
     viol: list = []
@@ -253,7 +256,18 @@ def run_case(params: dict) -> dict:
                 await asyncio.sleep(wait)
             name = pop[ev['peer']]['name']
             if ev['kind'] == 'limit':
-                up.client.settings.transfers.limits.upload_slots = ev['value']
+                # the three ways an application changes a setting at run time: assign the value, replace the
+                # section that holds it, replace the parent section
+                st = up.client.settings
+                how = ev.get('how', 'assign')
+                if how == 'assign':
+                    st.transfers.limits.upload_slots = ev['value']
+                elif how == 'section':
+                    st.transfers.limits = st.transfers.limits.model_copy(update={'upload_slots': ev['value']})
+                else:
+                    st.transfers = st.transfers.model_copy(
+                        update={'limits': st.transfers.limits.model_copy(update={'upload_slots': ev['value']})})
+                runner.add_cover(res, 'limit_change_ways', how)
                 obs['limit_changes'] += 1
                 trace.append((round(w.now, 3), 'limit', ev['value']))
             elif ev['kind'] == 'status':
